@@ -54,7 +54,8 @@ Qed.
 Definition literal_op (o : op) : bool :=
   match o with
   | Get _ _ _ | Contains _ _ _ | Len _ _ | Keys _ _ | SetV _ _ _ _ | Del _ _ _ | Pop _ _ _ _
-  | SetDefault _ _ _ _ | Update _ _ _ | View _ _ | EqD _ _ _ | GetM _ _ _ _ => true
+  | SetDefault _ _ _ _ | Update _ _ _ | View _ _ | EqD _ _ _ | GetM _ _ _ _
+  | UpdateBoth _ _ _ _ => true
   | _ => false
   end.
 
